@@ -1,4 +1,4 @@
-"""C08 -- source-annotated syntax tree (VGC + RCA rules R08.1-R08.5)."""
+"""C08 -- source-annotated syntax tree (VGC + RCA rules R08.1-R08.6)."""
 from __future__ import annotations
 
 import ast
@@ -18,7 +18,8 @@ EXPLANATION = (
     "nodes below that field never receive .region.  R08.3: the operator table has an entry for every operator "
     "constructor of the grammar.  R08.4: each sub-language of tokenize.Number is included (DFA product, counter-example "
     "reported) in rope's number pattern.  R08.5: every tokenizer string prefix followed by a string body is a word of "
-    "rope's string/f-string patterns.  Token search, parenthesis attribution and write-back equality are not decided."
+    "rope's string/f-string patterns.  R08.6: a first-match search over the walker's stack of open nodes iterates innermost-first "
+    "(reverse of the push order).  Token search, parenthesis attribution and write-back equality are not decided."
 )
 ASSUMPTIONS = [
     "language inclusion is decided over ASCII plus representatives of the non-ASCII \\w/\\d/\\s classes",
@@ -58,6 +59,11 @@ def _covers(sink: Set[str], fld, depth: int = 0) -> bool:
 
 
 def check(ctx, res) -> None:
+    _check_main(ctx, res)
+    _stack_rule(ctx, res)
+
+
+def _check_main(ctx, res) -> None:
     idx = ctx.idx
     idx.need_class(WALKER)
     v = vgc_mod.VGC(idx)
@@ -191,3 +197,56 @@ def check(ctx, res) -> None:
                 f"string literals with prefix {bad} are not matched whole by rope's string/f-string patterns: the literal's region starts "
                 "after (part of) the prefix")
     res.floor("R08.5", "prefix groups", len(groups), 8)
+
+
+def _stack_rule(ctx, res) -> None:
+    """R08.6: the walker keeps the not-yet-consumed children of every open node on a stack (innermost last).  A
+    first-match search over that stack ("the next statement", which bounds how far a string literal may extend) must
+    look at the innermost block first, i.e. iterate in the reverse of the push order."""
+    from .c10 import _insert_discipline, _iter_discipline
+
+    idx = ctx.idx
+    w = idx.need_class("rope.refactor.patchedast._PatchingASTWalker")
+    init = w.methods.get("__init__")
+    stacks = set()
+    for n in walk_local(init.node) if init else []:
+        if isinstance(n, ast.Assign) and isinstance(n.value, ast.List) and not n.value.elts:
+            stacks |= {t.attr for t in n.targets if is_self_attr(t) and t.attr.endswith("stack")}
+    if not stacks:
+        raise AnalysisError("anchor=_PatchingASTWalker.__init__: no `self.<x>stack = []` found")
+    n = 0
+    for attr in sorted(stacks):
+        pushes = []
+        for m in w.methods.values():
+            for c in calls_in(m.node):
+                if isinstance(c.func, ast.Attribute) and is_self_attr(c.func.value, attr) and c.func.attr in ("append", "insert", "appendleft"):
+                    pushes.append(_insert_discipline(c))
+        if not pushes or None in pushes or len(set(pushes)) != 1:
+            continue
+        push = pushes[0]
+        for mname, m in sorted(w.methods.items()):
+            for loop in [x for x in walk_local(m.node) if isinstance(x, ast.For)]:
+                if not any(is_self_attr(x, attr) for x in ast.walk(loop.iter)):
+                    continue
+                first_match = any(isinstance(x, (ast.Return, ast.Break)) for s_ in loop.body for x in [s_, *walk_local(s_)])
+                if not first_match:
+                    continue
+                n += 1
+                # normalise `reversed(self.stack)` etc. by substituting a plain name for the attribute
+                class _Sub(ast.NodeTransformer):
+                    def visit_Attribute(self, node):
+                        return ast.Name(id="__stack__", ctx=ast.Load()) if is_self_attr(node, attr) else self.generic_visit(node)
+                import copy
+                it = _Sub().visit(copy.deepcopy(loop.iter))
+                disc = _iter_discipline(ast.For(target=loop.target, iter=it, body=loop.body, orelse=[]), "__stack__")
+                if disc is None:
+                    res.undecided("R08.6", f"_PatchingASTWalker.{mname}|{attr}", f"{m.unit.rel}:{loop.lineno}",
+                                  f"iteration order over self.{attr} not recognised ({ast.unparse(loop.iter)})")
+                    continue
+                ok = (push, disc) in (("back", "backward"), ("front", "forward"))
+                res.add("R08.6", f"_PatchingASTWalker.{mname}|{attr}", ok, f"{m.unit.rel}:{loop.lineno}",
+                        f"first-match search over self.{attr} starts at the innermost open node" if ok else
+                        f"{mname} searches self.{attr} from the OUTERMOST open node ({ast.unparse(loop.iter)}; entries are pushed at the {push}): the 'next "
+                        "statement' that bounds a string literal is taken from an enclosing block, so a string inside a nested block swallows the string "
+                        "that starts the following statement and annotating the module fails or regions overlap", function=m.qualname)
+    res.floor("R08.6", "first-match searches over the walker's stacks", n, 1)
